@@ -11,7 +11,7 @@ META = {
     "technique": "runtime monitoring: metamorphic monitor over pairs of complete runs of the real simulator — identical rebuild, permuted station registration, permuted constraint order, permuted session list, all three at once, and a k-period time shift; outputs recorded per station id / session id and compared with the base run; a tie detector on the sort keys excludes runs whose decisions hinge on ties",
     "design_ref": "DESIGN.md section 6 C10",
     "level_text": "exploration: hundreds (quick) / tens of thousands (thorough) of generated scenarios x 6 relations, scripted, uncontrolled and finite-rate sorted schedulers (both algorithms, five orders, estimator and uninterrupted options), heterogeneous voltages, mixed-sign three-phase constraints; identical rebuilds must be bit-identical, permuted and shifted runs equal per station id / session id to 1e-9",
-    "level_note": "sorted runs in which two simultaneously active sessions have priority keys closer than 1e-9 at any invocation are counted and not judged for the permutation relations (the property excludes schedulers whose decisions hinge on ties); noisy batteries draw from numpy's global RNG in station order, so cases with noise are judged for the rebuild relation only; the shift relation is applied when the periodic-recompute phase cannot move relative to the events (max_recompute in {None,1} or first event at period 0)",
+    "level_note": "sorted runs in which two simultaneously active sessions have priority keys closer than 1e-9 (or, with uninterrupted charging, equal remaining times, which order the reservation of minimum pilots) at any invocation are counted and not judged for the permutation relations (the property excludes schedulers whose decisions hinge on ties); noisy batteries draw from numpy's global RNG in station order, so cases with noise are judged for the rebuild relation only; the shift relation is applied when the periodic-recompute phase cannot move relative to the events (max_recompute in {None,1} or first event at period 0)",
 }
 LEVEL = "exploration"
 RULE = ("case = one scenario run under up to 6 relations (each relation = one evaluation: a pair of complete runs); non-trivial = a "
@@ -65,15 +65,20 @@ def cases(seed, tier):
 class TieWatch:
     """Sort-function wrapper: detects priority ties among the sessions handed to the sort."""
 
-    def __init__(self):
+    def __init__(self, unint=False):
         self.tie = False
         self.calls = 0
+        self.unint = unint  # uninterrupted charging reserves minimum pilots in order of remaining time: ties there matter too
 
     def __call__(self, fn, name):
         watch = self
 
         def wrapped(evs, iface):
             watch.calls += 1
+            if len(evs) > 1 and watch.unint:
+                rts = sorted(int(e.remaining_time) for e in evs)
+                if any(a == b for a, b in zip(rts, rts[1:])):
+                    watch.tie = True
             if len(evs) > 1:
                 if name in ("fcfs", "lcfs"):
                     keys = [float(e.arrival) for e in evs]
@@ -91,7 +96,7 @@ class TieWatch:
 
 
 def run_one(d, order=None, cons_order=None, session_order=None, shift=0):
-    watch = TieWatch()
+    watch = TieWatch(unint=bool(d["scheduler"].get("unint")))
     sch = build.build_scheduler(d, sort_wrapper=watch)
     sim, evs = build.build_sim(d, scheduler=sch, order=order, cons_order=cons_order, session_order=session_order, shift=shift)
     probe = SimProbe(sim, snapshots=False)
@@ -241,6 +246,6 @@ def classify(v):
     d = v["case"]["desc"]
     if d["scheduler"].get("kind") == "sorted" and d["scheduler"].get("est") == "rampdown" and \
             any(s["arrival"] == 0 and s["departure"] >= 2 for s in d["sessions"]) and \
-            (v.get("witness") or {}).get("first_diff_period") == 1:
+            ((v.get("witness") or {}).get("first_diff_period") or 0) >= 1:
         return "rampdown_blind_in_period_1"
     return None
